@@ -11,10 +11,19 @@ use std::panic::{catch_unwind, AssertUnwindSafe};
 use vh_common::*;
 
 pub fn fresh() -> UserModel<'static> {
-    let m = seed_workbook();
+    let m = if plain() { plain_workbook() } else { seed_workbook() };
     let bytes = m.to_bytes();
     UserModel::from_bytes(&bytes, "en").unwrap()
 }
+
+/// Scripted histories (`scenarios()`) run on the plain workbook (numbers only: none of the known
+/// defects of structural operations — re-typed cells, references into a deleted band, links,
+/// conditional formats — can fire there), so their structural operations get their own tight
+/// classes (`move_rows/plain`, …) instead of the coarse `structural` one.
+static PLAIN: std::sync::atomic::AtomicBool = std::sync::atomic::AtomicBool::new(false);
+pub fn plain() -> bool { PLAIN.load(std::sync::atomic::Ordering::Relaxed) }
+fn set_plain(b: bool) { PLAIN.store(b, std::sync::atomic::Ordering::Relaxed) }
+fn plain_kind(k: &str) -> String { if plain() && coarse(group(k)) { format!("{k}/plain") } else { k.to_string() } }
 
 pub struct Interner { map: HashMap<String, i64> }
 impl Interner {
@@ -83,6 +92,7 @@ pub fn diff_shape(a: &str, b: &str) -> String { diff_tags(a, b).join("+") }
 
 /// operations that relocate cells by re-typing them / re-parse every stored formula share causes
 pub fn group(kind: &str) -> &str {
+    if kind.ends_with("/plain") { return kind; }
     if kind.starts_with("input@array") || kind.starts_with("input@spill") { return "input-array"; }
     match kind.split(|c| c == '@' || c == '/').next().unwrap_or(kind) {
         "insert_rows" | "insert_columns" | "delete_rows" | "delete_columns" | "move_rows" | "move_columns" => "structural",
@@ -156,7 +166,8 @@ fn kind_ctx(m: &UserModel, op: &Op) -> String {
                 .map(|w| (*a..=*b2).any(|r| w.is_row_hidden(r).unwrap_or(false))).unwrap_or(false);
             format!("{}{}", kind(op), if hidden { "/hidden" } else { "" })
         }
-        o => kind(o).to_string(),
+        Op::UpdateName { scope, new_scope, .. } => format!("{}{}", kind(op), if scope != new_scope { "/rescope" } else { "" }),
+        o => plain_kind(kind(o)),
     }
 }
 
@@ -166,6 +177,14 @@ fn guarded<F: FnOnce() -> Result<(), String>>(f: F) -> Result<Result<(), String>
 
 pub struct Stats { pub kinds: BTreeMap<String, u64>, pub ok: u64, pub err: u64, pub nopush: u64, pub histories: u64, pub samples: Vec<String> }
 impl Stats { pub fn new() -> Self { Stats { kinds: BTreeMap::new(), ok: 0, err: 0, nopush: 0, histories: 0, samples: vec![] } } }
+
+/// history `h` starts with the scripted prefix `scenarios()[h]` (if any) and is then kept short
+fn plan(h: u64, scen: &[Vec<Op>], rng: &mut Rng, lo: i64, hi: i64, tail: &[Op]) -> (std::collections::VecDeque<Op>, i64) {
+    match scen.get(h as usize) {
+        Some(sc) => { set_plain(true); (sc.iter().chain(tail.iter()).cloned().collect(), (sc.len() + tail.len()) as i64) }
+        None => { set_plain(false); (Default::default(), rng.range(lo, hi)) }
+    }
+}
 
 fn lens(a: &Args) -> (u64, u64) {
     // (histories, max length)
@@ -181,7 +200,9 @@ pub fn run_c01(a: &Args) {
     let mut st = Stats::new();
     let mut tags: BTreeMap<String, Vec<String>> = BTreeMap::new();
     let (nh, maxl) = lens(a);
-    for h in 0..nh {
+    let scen = scenarios();
+    for h in 0..(nh + scen.len() as u64) {
+        let (mut script, len) = plan(h, &scen, &mut rng, 6, maxl as i64, &[]);
         let mut m = fresh();
         let mut it = Interner::new();
         let s_init = snap(&m);
@@ -190,10 +211,9 @@ pub fn run_c01(a: &Args) {
         let mut ev_out: Vec<String> = vec![];
         let mut ops_done: Vec<Op> = vec![];
         let mut failed_classes: Vec<String> = vec![];
-        let len = rng.range(6, maxl as i64);
         st.histories += 1;
         for _ in 0..len {
-            let op = gen_op(&mut rng, &ctx_of(&m), false);
+            let op = script.pop_front().unwrap_or_else(|| gen_op(&mut rng, &ctx_of(&m), false));
             let k = kind(&op);
             let kc = kind_ctx(&m, &op);
             *st.kinds.entry(k.to_string()).or_insert(0) += 1;
@@ -281,7 +301,9 @@ fn finish(cs: Cases, or: Oracle, st: Stats, tags: BTreeMap<String, Vec<String>>)
 /// diff kinds, so this is where a wrong forward arm shows).
 fn c02_triples(a: &Args, rng: &mut Rng, cs: &mut Cases, or: &mut Oracle, st: &mut Stats, tags: &mut BTreeMap<String, Vec<String>>) {
     let (nh, maxl) = lens(a);
-    for _ in 0..(nh / 2) {
+    let scen = scenarios();
+    for h in 0..(nh / 2 + scen.len() as u64) {
+        let (mut script, len) = plan(h, &scen, rng, 6, maxl as i64, &[]);
         let mut m = fresh();
         let mut it = Interner::new();
         it.id(&snap(&m));
@@ -290,8 +312,8 @@ fn c02_triples(a: &Args, rng: &mut Rng, cs: &mut Cases, or: &mut Oracle, st: &mu
         let mut ops_done: Vec<Op> = vec![];
         let mut failed_classes: Vec<String> = vec![];
         st.histories += 1;
-        for _ in 0..rng.range(6, maxl as i64) {
-            let op = gen_op(rng, &ctx_of(&m), false);
+        for _ in 0..len {
+            let op = script.pop_front().unwrap_or_else(|| gen_op(rng, &ctx_of(&m), false));
             let k = kind(&op);
             let kc = kind_ctx(&m, &op);
             *st.kinds.entry(k.to_string()).or_insert(0) += 1;
@@ -351,7 +373,9 @@ pub fn run_c02(a: &Args) {
     let mut tags: BTreeMap<String, Vec<String>> = BTreeMap::new();
     let (nh, maxl) = lens(a);
     c02_triples(a, &mut rng, &mut cs, &mut or, &mut st, &mut tags);
-    for h in 0..nh {
+    let scen = scenarios();
+    for h in 0..(nh + scen.len() as u64) {
+        let (mut script, len) = plan(h, &scen, &mut rng, 8, (maxl + 10) as i64, &[Op::Undo, Op::Undo, Op::Redo, Op::Redo, Op::Undo, Op::Redo]);
         let mut m = fresh();
         let mut it = Interner::new();
         // zipper of snapshots: before (most recent first), current, after; plus the op that led to each
@@ -363,11 +387,10 @@ pub fn run_c02(a: &Args) {
         let mut ev_out: Vec<String> = vec![];
         let mut ops_done: Vec<Op> = vec![];
         let mut failed_classes: Vec<String> = vec![];
-        let len = rng.range(8, (maxl + 10) as i64);
         st.histories += 1;
         for _ in 0..len {
             if !failed_classes.is_empty() { break; }
-            let op = gen_op(&mut rng, &ctx_of(&m), true);
+            let op = script.pop_front().unwrap_or_else(|| gen_op(&mut rng, &ctx_of(&m), true));
             let k = kind(&op);
             let kc = kind_ctx(&m, &op);
             *st.kinds.entry(k.to_string()).or_insert(0) += 1;
@@ -469,8 +492,10 @@ pub fn run_c03(a: &Args) {
     let mut tags: BTreeMap<String, Vec<String>> = BTreeMap::new();
     let (nh, maxl) = lens(a);
     let opts = SnapOpts { values: true, views: false, styles: true };
-    for h in 0..nh {
-        let seed_bytes = seed_workbook().to_bytes();
+    let scen = scenarios();
+    for h in 0..(nh + scen.len() as u64) {
+        let (mut script, len) = plan(h, &scen, &mut rng, 6, maxl as i64, &[Op::Undo, Op::Redo, Op::Undo]);
+        let seed_bytes = (if plain() { plain_workbook() } else { seed_workbook() }).to_bytes();
         let mut p = UserModel::from_bytes(&seed_bytes, "en").unwrap();
         let mut r_each = UserModel::from_bytes(&seed_bytes, "en").unwrap();
         let mut r_rand = UserModel::from_bytes(&seed_bytes, "en").unwrap();
@@ -483,14 +508,14 @@ pub fn run_c03(a: &Args) {
         let mut cuts: Vec<String> = vec![];
         let mut undo_kinds: Vec<String> = vec![];
         let mut redo_kinds: Vec<String> = vec![];
-        let len = rng.range(6, maxl as i64);
         st.histories += 1;
         let mut bad = false;
         for _ in 0..len {
             if !failed_classes.is_empty() { bad = true; break; }
-            let op = gen_op(&mut rng, &ctx_of(&p), true);
-            let k = kind(&op);
-            *st.kinds.entry(k.to_string()).or_insert(0) += 1;
+            let op = script.pop_front().unwrap_or_else(|| gen_op(&mut rng, &ctx_of(&p), true));
+            let k_plain = match &op { Op::UpdateName { scope, new_scope, .. } if scope != new_scope => format!("{}/rescope", kind(&op)), _ => plain_kind(kind(&op)) };
+            let k = k_plain.as_str();
+            *st.kinds.entry(kind(&op).to_string()).or_insert(0) += 1;
             ops_done.push(op.clone());
             let d0 = depths(&p);
             let s_before = snapshot(p.get_model(), &opts);
@@ -546,7 +571,7 @@ pub fn run_c03(a: &Args) {
                 or.checked += 1;
                 let sr = snapshot(r.get_model(), &opts);
                 if sr != sp && failed_classes.is_empty() {
-                    let any_coarse = ops_done.iter().any(|o| coarse(group(kind(o))));
+                    let any_coarse = !plain() && ops_done.iter().any(|o| coarse(group(kind(o))));
                     let c = format!("replica-diverged-final:{name}:{}", if any_coarse { "structural".to_string() } else { diff_shape(&sp, &sr) });
                     or.fail(&c, json!({"history": ops_json(&ops_done), "diff": snap_diff(&sp, &sr, 4)}), format!("replica ({name}) differs from the primary at the end"));
                     failed_classes.push(c);
